@@ -84,8 +84,20 @@ impl Item for ZDrop {
     }
 }
 
-fn counts() -> (u64, u64) {
+pub fn counts() -> (u64, u64) {
     ZC.with(|c| c.get())
+}
+
+/// The conservation law of the counting oracle: `created - destroyed - forgotten == owned`.
+pub fn conserve(base: (u64, u64), forgotten: u64, want: u64, after: &str) {
+    let (c, d) = counts();
+    let (c, d) = (c - base.0, d - base.1);
+    let have = c as i64 - d as i64 - forgotten as i64;
+    if have > want as i64 {
+        tok::raise(V7_LEAK, format!("zero-sized elements: after {}: {} created, {} destroyed, {} forgotten, but only {} are still owned by anyone: {} leaked", after, c, d, forgotten, want, have - want as i64));
+    } else if have < want as i64 {
+        tok::raise(V1_DOUBLE_DROP, format!("zero-sized elements: after {}: {} created, {} destroyed, {} forgotten, yet {} are still owned: {} destroyed more than once", after, c, d, forgotten, want, want as i64 - have));
+    }
 }
 
 enum ZForm<K: Kind<ZDrop>> {
